@@ -1,2 +1,4 @@
 import TemprenModel.Model.Path
 import TemprenModel.Props.C17
+import TemprenModel.Model.PyInt
+import TemprenModel.Model.Count
